@@ -8,7 +8,8 @@ ops
 * `safe <name>`                               → SafeURLString
 * `detect <path>`                             → `<configurationId>|<webhookId>`
 * `hook <id> <kind>|<name>|<outcome> …`       → `ok`   kind = v|m; outcome = `<ending>[+<others>]:<file>` with
-     ending = `<n>` the process exits with status n · `k<n>` signal n terminates it (after it wrote its files)
+     ending = `<n>` the process exits with status n · `k<n>` signal n terminates it (after it wrote its files),
+     optionally `!o` / `!e` / `!oe`: it printed a line on stdout / stderr / both before
      file = `e` empty · `g` malformed · `a;…`/`d;…` valid allowed/denied with `m=<msg>` `w=<w1>~<w2>` `p=<patch>`
      others = `ok…` / `bad…`: the run's metric / object patch operation files can / cannot be applied
 * `reqout <uid> <outcome>`                    → `ok`   for the request with that uid the hook does this instead
@@ -66,8 +67,13 @@ def parseFile (s : String) : Option FileContent :=
       some (.valid ⟨v == "a", msg, warns, patch⟩)
   | _ => none
 
+/-- `<n>` / `k<n>`, optionally followed by `!o`, `!e`, `!oe`: what the process printed on stdout /
+stderr before it ended — part of the input, of no consequence for the answer -/
 def parseEnding (s : String) : Option Ending :=
-  if s.startsWith "k" then (s.drop 1).toString.toNat?.map .signaled else s.toNat?.map .exited
+  match s.splitOn "!" with
+  | [e] | [e, "o"] | [e, "e"] | [e, "oe"] =>
+    if e.startsWith "k" then (e.drop 1).toString.toNat?.map .signaled else e.toNat?.map .exited
+  | _ => none
 
 def parseOutcome (s : String) : Option RunDecl :=
   match s.splitOn ":" with
